@@ -225,7 +225,12 @@ where
 {
     let run = run_sym::<C>(shape, err, seed, cap_p, cap_v);
     let mut job = Job { property: prop.into(), scenario: format!("{}:{}", prop, shape.name), curve: curve.into(), seed, shape: shape_json(shape), ..Default::default() };
-    let honest = err.con.is_empty() && err.gate.is_empty();
+    // an error plan can be vacuous for a skeleton (e.g. an error on the output of a gate that is never
+    // completed): what counts is whether the tracked assignment violates anything
+    let honest = {
+        let sh = run.shr.borrow();
+        sh.con_vals.iter().all(|v| v.v.is_zero()) && sh.gates.iter().all(|(l, r, o)| (l.v * r.v - o.v).is_zero())
+    };
     job.params = serde_json::json!({"cap_prover": cap_p, "cap_verifier": cap_v, "err_plan": err, "gates": shape.gates(), "padded": shape.padded(), "commitments": shape.commits()});
     let sh = run.shr.borrow();
     job.check("builder ran without API errors", sh.errors.is_empty(), format!("{:?}", sh.errors));
@@ -310,7 +315,10 @@ fn replay_plain_inner<G: AffineRepr + 'static>(shape: &Shape, err: &ErrPlan, see
     let mut vt = new_verifier_transcript(shape);
     let verifier = build_verifier(shape, &shr, &mut vt);
     let ok = verifier.verify(&proof, &pc, &bp_v).is_ok();
-    (true, ok, 0)
+    // 2 = the tracked assignment violates something (the proof must be rejected), 3 = it is satisfying
+    let sh = shr.borrow();
+    let honest = sh.con_vals.iter().all(|v| v.is_zero()) && sh.gates.iter().all(|(l, r, o)| (*l * *r - *o).is_zero());
+    (true, ok, if honest { 3 } else { 2 })
 }
 
 pub fn replay_json(shape: &Shape, err: &ErrPlan, seed: u64, cap_p: usize, cap_v: usize) -> serde_json::Value {
